@@ -221,11 +221,12 @@ def step (st : St) (toks : List String) : St × String :=
     -- k datagrams handed to an exit socket back to back ("i" literal address / "n" host name), then everything drains
     match bool? ready, listItems? kinds with
     | some ready, some ks =>
-      let sends : List XEv := ks.zipIdx.map (fun (k, i) => XEv.send i (if k == "n" then XDest.name 7 else XDest.ip 9))
+      let sends : List XEv := ks.zipIdx.map (fun (k, i) => XEv.send i (if k == "n" then XDest.name 7 (1000 + i) else XDest.ip 9 (1000 + i)))
       let drain : List XEv := [XEv.transportsReady] ++ ks.map (fun _ => XEv.resolved)
       let s := XSock.run (fun h => h + 100) ({ ready := ready } : XSock) (sends ++ drain)
+      let wrong := s.out.filter (fun (x : XItem) => x.2.2 != 1000 + x.1)
       let lost := (List.range ks.length).filter (fun i => s.out.map Prod.fst |>.count i |> (· != 1))
-      (st, s!"out={s.out.length} lost={lost.length}")
+      (st, s!"out={s.out.length} lost={lost.length + wrong.length}")
     | _, _ => bad
   | ["tdeliver", packet, specs] =>
     -- specs: "[<prefixhex>:<0|1>,...]" = the overlays loaded on the tunnel endpoint with their anonymize flag
@@ -242,6 +243,14 @@ def step (st : St) (toks : List String) : St × String :=
       | some ovs => (st, showNatList (tunnelDelivery ovs packet))
       | none => bad
     | _, _ => bad
+  | ["tepsend", flags] =>
+    -- a history of TunnelEndpoint.send calls: "1" = a ready circuit exists at that call; packet i goes to destination i
+    match listItems? flags with
+    | some fs =>
+      let evs : List (Bool × (Nat × Nat)) := fs.zipIdx.map (fun (f, i) => (f == "1", (i, i)))
+      let s := TEp.run {} evs
+      (st, s!"out={showNatList (s.out.map Prod.fst)} queued={showNatList (s.queue.map Prod.fst)}")
+    | none => bad
   | ["dump", a] =>
     match a.toNat? with
     | some a => match findNode st.net a with
